@@ -235,6 +235,10 @@ def run(ctx, res):
                 else:
                     res.ok("RE-ENTRY", "%s: the Interrupted arm does not touch the environment" % pth)
     res.floor("RE-ENTRY", "EvalError::Interrupted arms in the session front ends", n_arms, 2)
+    # the frame an interrupted evaluation is resumed in must still be the frame it was interrupted in: who may
+    # re-point a live frame's namespace is a reviewed table (shared with C10)
+    from . import c10 as _c10
+    _c10.namespace_writers(P, res)
     res.extra.update({"functions_analysed": 2, "pre_step_region_blocks": len(pre)})
     res.explanation = (
         "State-restoration clause of interrupt/resume, decided on the CFG of eval::eval: from the block that pops "
